@@ -9,17 +9,6 @@ namespace K
 variable {α : Type} [Add α] [Sub α] [Mul α] [Div α] [Neg α] [LT α] [LE α]
   [DecidableLT α] [DecidableLE α] [OfScientific α] [KOps α]
 
-/-- mirrors: tween.rs::Easing -/
-inductive Easing (α : Type) where
-  | linear
-  | inPowi (p : Int)
-  | outPowi (p : Int)
-  | inOutPowi (p : Int)
-  | inPowf (p : α)
-  | outPowf (p : α)
-  | inOutPowf (p : α)
-deriving Repr
-
 /-- mirrors: tween.rs::Easing::apply -/
 def Easing.apply (e : Easing α) (x : α) : α :=
   match e with
@@ -45,10 +34,6 @@ def Easing.apply (e : Easing α) (x : α) : α :=
 def tweenValue (easing : Easing α) (durationNs : Nat) (time : α) : α :=
   easing.apply (time / (durToSecs durationNs : α))
 
-/-- mirrors: tween/tweenable.rs::Tweenable — linear interpolation on a value type `τ` -/
-structure Tweenable (α τ : Type) where
-  lerp : τ → τ → α → τ
-
 def tw64 : Tweenable α α := ⟨lerp64⟩
 def tw32 : Tweenable α α := ⟨lerp32⟩
 /-- mirrors: tweenable.rs `impl Tweenable for Duration` (nanoseconds) -/
@@ -56,14 +41,6 @@ def twDur : Tweenable α Nat :=
   ⟨fun a b t => KOps.durFromSecs ((durToSecs a : α) + ((durToSecs b : α) - (durToSecs a : α)) * t)⟩
 /-- mirrors: clock_speed.rs `impl Tweenable for ClockSpeed` -/
 def twCs : Tweenable α (ClockSpeed α) := ⟨ClockSpeed.lerp⟩
-
-/-- mirrors: value.rs::Mapping<T> -/
-structure Mapping (α τ : Type) where
-  in0 : α
-  in1 : α
-  out0 : τ
-  out1 : τ
-  easing : Easing α
 
 /-- mirrors: value.rs::Mapping::map — the eased amount in [0,1] -/
 def Mapping.amount {τ : Type} (m : Mapping α τ) (input : α) : α :=
